@@ -4,6 +4,28 @@ import numpy as np
 from . import xt
 
 
+_INDEX_KIND = [None]
+
+
+class index_kind:
+    """within the block, array indices are given as numpy integers of this kind (index arithmetic must not depend on it)"""
+
+    def __init__(self, kind):
+        self.kind = kind
+
+    def __enter__(self):
+        _INDEX_KIND[0] = self.kind
+
+    def __exit__(self, *a):
+        _INDEX_KIND[0] = None
+
+
+def key(p):
+    if _INDEX_KIND[0] is not None:
+        p = tuple(_INDEX_KIND[0](i) for i in p)
+    return p if len(p) > 1 else p[0]
+
+
 def root(t, obj):
     """(type, handle) to navigate from: a stand-alone union reference stands for its target"""
     return t, obj
@@ -24,7 +46,7 @@ def nav(t, x, path):
             t = t[1][names.index(type(x).__name__)]
         elif isinstance(p, tuple):
             assert k == "A", (k, p)
-            x = x[p if len(p) > 1 else p[0]]
+            x = x[key(p)]
             t = t[1]
         else:
             assert k == "St", (k, p)
@@ -40,7 +62,7 @@ def assign(t, x, path, value):
         px = px.get()
     p = path[-1]
     if isinstance(p, tuple):
-        px[p if len(p) > 1 else p[0]] = value
+        px[key(p)] = value
     else:
         setattr(px, p, value)
 
